@@ -136,6 +136,11 @@ fn judge(rep: &Report, c: &mut Counters, text: &str, ast: &Seq) {
             }
             true
         },
+        Built::Err(e) if e == "failed to compile glob: oversized program" => {
+            // a compile error, not a verdict of the rule checker (C05's business)
+            bump(c, "oversized_program", 1);
+            return;
+        },
         Built::Err(_) => false,
         Built::Panic(_) => {
             bump(c, "skipped_panics", 1);
